@@ -114,8 +114,7 @@ def srec(data):
         elif t in "56":
             if addr != ndata:
                 errors.append("line %d: record count %d != %d" % (ln_no, addr, ndata))
-    if not any(t in meta["types"] for t in "789"):
-        errors.append("no termination record")
+    meta["terminated"] = any(t in meta["types"] for t in "789")
     return img, meta, errors
 
 
@@ -150,11 +149,15 @@ def wdc(data):
 UF2_MAGIC0, UF2_MAGIC1, UF2_MAGIC_END = 0x0A324655, 0x9E5D5157, 0x0AB16F30
 
 
+UF2_ABSOLUTE_FAMILY = 0xe48bff57   # RP2350-E10 workaround block the Pico SDK (and naken_asm) emit first
+
+
 def uf2(data):
-    img, errors, meta = {}, [], {"blocks": 0}
+    img, errors, meta = {}, [], {"blocks": 0, "absolute_family_blocks": 0}
     if len(data) % 512:
         errors.append("file size %d is not a multiple of 512" % len(data))
     nb = len(data) // 512
+    blocks = []
     for i in range(nb):
         blk = data[i * 512:(i + 1) * 512]
         m0, m1, flags, addr, size, no, total, fam = struct.unpack("<8I", blk[:32])
@@ -165,18 +168,23 @@ def uf2(data):
         if size > 476:
             errors.append("block %d: payload size %d > 476" % (i, size))
             continue
-        if no != i:
-            errors.append("block %d: block number field %d" % (i, no))
-        if total != nb:
-            errors.append("block %d: total blocks field %d != %d" % (i, total, nb))
+        if (flags & 0x2000) and fam == UF2_ABSOLUTE_FAMILY:
+            meta["absolute_family_blocks"] += 1
+            continue
+        blocks.append((i, flags, addr, size, no, total, blk))
+    for k, (i, flags, addr, size, no, total, blk) in enumerate(blocks):
+        if no != k:
+            errors.append("block %d: block number field %d, expected %d" % (i, no, k))
+        if total != len(blocks):
+            errors.append("block %d: total blocks field %d != %d" % (i, total, len(blocks)))
         meta["blocks"] += 1
         if flags & 1:
             continue  # not main flash
-        for k in range(size):
-            a = addr + k
+        for j in range(size):
+            a = addr + j
             if a in img:
                 errors.append("block %d: address 0x%x written twice" % (i, a))
-            img[a] = blk[32 + k]
+            img[a] = blk[32 + j]
     return img, meta, errors
 
 
